@@ -55,6 +55,8 @@ def jobs(tier):
         out.append(("rename.%s" % ("exists" if exists else "free"), "job_rename", dict(exists=exists)))
     out.append(("rename.exists.case-variant", "job_rename", dict(exists=True, target="NAME.torrent")))
     out.append(("rename.same-name", "job_rename", dict(exists=True, target="name.torrent")))
+    for nm in ("./name", "sub/name", "../dl/name"):
+        out.append(("rename.exists.name-%s" % nm.replace("/", "_"), "job_rename", dict(exists=True, mname=nm)))
     return out
 
 
@@ -198,13 +200,21 @@ def job_create(E, version, shape, outkind, magnet=False, _mutants=None, _second=
         E.witnesses.setdefault(k, True)
 
 
-def job_rename(E, exists, target="abc123.torrent", _mutants=None):
+def job_rename(E, exists, target="abc123.torrent", mname=None, _mutants=None):
     fs = AFS()
     meta = concrete_meta(1)
+    victim = "/t/dl/name.torrent"
+    if mname:
+        # a name with separators / dot segments (legal for other tools, or hostile): wherever the joined path lands,
+        # an existing file there must not be replaced
+        meta["info"]["name"] = mname
+        import posixpath as _pp
+        victim = _pp.normpath(_pp.join("/t/dl", mname + ".torrent"))
+        fs.mkdirs(_pp.dirname(victim))
     tpath = "/t/dl/" + target
     fs.add_token(tpath, BenTok(ben_copy(meta)))
     if exists and target != "name.torrent":
-        fs.add_token("/t/dl/name.torrent", BenTok({"other": 1}))
+        fs.add_token(victim, BenTok({"other": 1}))
         E.witnesses["rename refused"] = True
     fs.add("/t/dl/x.bin", ("x", 0), E.int("s0", 0, 100))
     snap = fs.snapshot()
@@ -214,8 +224,12 @@ def job_rename(E, exists, target="abc123.torrent", _mutants=None):
         # already carries its name: whatever the command answers, nothing may change
         E.check(not fs.diff(snap), "C18.rename.same-name-changes-nothing", "%r" % (fs.diff(snap)[:3],))
     elif exists:
-        E.check(not ok and isinstance(res, FileExistsError), "C18.rename.refuses-existing", "result %r" % (res,))
-        E.check(not fs.diff(snap) and not fs.log, "C18.rename.refusal-changes-nothing", "%r" % (fs.log[:3],))
+        if mname is None:
+            E.check(not ok and isinstance(res, FileExistsError), "C18.rename.refuses-existing", "result %r" % (res,))
+        E.check(victim in fs.files and fs.files[victim].content == snap[0][victim], "C18.rename.never-replaces-existing",
+                "the existing file %s was replaced" % victim)
+        if mname is None:
+            E.check(not fs.diff(snap) and not fs.log, "C18.rename.refusal-changes-nothing", "%r" % (fs.log[:3],))
     else:
         if not ok:
             if res is not None:
@@ -317,14 +331,20 @@ def replay(params, model, notes, workdir, seed):
     base = c07.conc_base(1, {})
     d = os.path.join(workdir, "dl")
     target = params.get("target", "abc123.torrent")
+    victim = os.path.join(d, "name.torrent")
+    if params.get("mname"):
+        base["info"]["name"] = params["mname"]
+        victim = os.path.normpath(os.path.join(d, params["mname"] + ".torrent"))
     refconc.write_file(os.path.join(d, target), refconc.bencode(base))
     if params["exists"] and target != "name.torrent":
-        refconc.write_file(os.path.join(d, "name.torrent"), b"d5:otheri1ee")
+        refconc.write_file(victim, b"d5:otheri1ee")
     before = refconc.snapshot(workdir)
     ok, res = run(["rename", os.path.join(d, target)])
     after = refconc.snapshot(workdir)
     if target == "name.torrent":
         return [] if after == before else ["C18.rename.same-name-changes-nothing"]
+    if params.get("mname"):
+        return [] if (os.path.exists(victim) and open(victim, "rb").read() == b"d5:otheri1ee") else ["C18.rename.never-replaces-existing"]
     if params["exists"]:
         return [] if (not ok and after == before) else ["C18.rename.refuses-existing"]
     want = dict(before)
